@@ -361,9 +361,12 @@ def first_diff(a, b):
     return min(len(a), len(b))
 
 
-def campaign(cases, oracle, max_report=5, canon=None):
+def campaign(cases, oracle, max_report=5, canon=None, advisory=False):
     """oracle(case, impl_lines) -> None or a string describing the failure.
-    returns dict(stats, violations, samples)"""
+    returns dict(stats, violations, samples).
+    advisory=True: a stream of inputs OUTSIDE the guard of the property (null / removed / out-of-range arguments …): the
+    property says nothing about them and its theorems do not use the model there, so a model/implementation disagreement
+    on such a case is recorded in the statistics (`advisory_disagreements`, with examples) but is not an alarm."""
     res = run_pair(cases)
     stats = {"cases": len(cases), "lines": 0, "disagreements": 0, "oracle_failures": 0,
              "impl_outcomes": {}, "ops": {}}
@@ -384,7 +387,13 @@ def campaign(cases, oracle, max_report=5, canon=None):
             if key in ("ok", "panic", "retry", "queued") or key.startswith("err") or key.startswith("tx"):
                 stats["impl_outcomes"][key] = stats["impl_outcomes"].get(key, 0) + 1
         ofail = oracle(c, li) if oracle else None
-        if li != lm:
+        if li != lm and advisory and not ofail:
+            stats["advisory_disagreements"] = stats.get("advisory_disagreements", 0) + 1
+            if len(stats.setdefault("advisory_examples", [])) < 3:
+                k = first_diff(li, lm)
+                stats["advisory_examples"].append({"case": c.cid, "input": c.lines, "line": k,
+                                                   "impl": li[k] if k < len(li) else "<end>", "model": lm[k] if k < len(lm) else "<end>"})
+        elif li != lm:
             stats["disagreements"] += 1
             if stats["disagreements"] <= max_report or ofail:
                 k = first_diff(li, lm)
@@ -424,7 +433,11 @@ def merge_results(parts):
     violations, samples, notes = [], [], []
     for name, r in parts:
         s = r["stats"]
-        stats["streams"][name] = {k: s.get(k) for k in ("cases", "lines", "disagreements", "oracle_failures", "distinct_nontrivial", "exhaustive")}
+        stats["streams"][name] = {k: s.get(k) for k in ("cases", "lines", "disagreements", "oracle_failures", "distinct_nontrivial", "exhaustive",
+                                                         "advisory_disagreements", "advisory_examples") if k in s or not k.startswith("advisory")}
+        if s.get("advisory_disagreements"):
+            notes.append(f"stream '{name}' (outside the guard of the property, advisory): {s['advisory_disagreements']} model/implementation "
+                         f"disagreement(s), e.g. case {s['advisory_examples'][0]['case']}")
         for k in ("cases", "lines", "disagreements", "oracle_failures", "distinct_nontrivial"):
             stats[k] += s.get(k, 0)
         for k in ("impl_outcomes", "ops"):
